@@ -1,5 +1,6 @@
 import Okane.Lemmas.LiteralSpec
 import Okane.Lemmas.LiteralPrint
+import Okane.Lemmas.LiteralPositions
 /-!
 # C07 — numeric literals mean exactly what is written
 
@@ -296,5 +297,93 @@ example : scan "1.2.3".toList = .err (.unexpectedChar 3) := by decide +kernel
 example : closedForm "1,234.50".toList = some ⟨false, 123450, 2, some .comma3dot⟩ := by decide +kernel
 example : closedForm "1,234,56".toList = none := by decide +kernel
 example : scan ('1' :: List.replicate 39 '0') = .err .invalidDecimal := by decide +kernel
+
+end Okane.C07
+
+/-! ## C07_positions — the token handed to the scanner is maximal, in every syntactic position
+
+Proved in `Lemmas/LiteralPositions.lean` (for all inputs); restated here and combined with `C07_scan_spec`. -/
+namespace Okane.C07
+open Okane Okane.Literal Okane.LiteralPositions
+
+/-- **C07_positions (token extent)**: `tokenSplit inp = (tok, rest)` iff `inp = tok ++ rest`, `tok` is an optional `-`
+followed by a non-empty run over `[0-9,.]` and `rest` does not begin with a character of `[0-9,.]` (maximal munch). -/
+theorem C07_positions_token (inp tok rest : List Char) :
+    tokenSplit inp = .ok (tok, rest) ↔ inp = tok ++ rest ∧ IsToken tok ∧ NoNumHead rest :=
+  tokenSplit_ok_iff inp tok rest
+
+/-- every token that starts at the same position is a prefix of the one taken -/
+theorem C07_positions_maximal {inp tok rest tok' rest' : List Char} (h : tokenSplit inp = .ok (tok, rest))
+    (ht' : IsToken tok') (he : inp = tok' ++ rest') : tok' <+: tok :=
+  tokenSplit_maximal h ht' he
+
+/-- **C07_positions (failure)**: `tokenSplit` fails iff no token starts at the input -/
+theorem C07_positions_no_token (inp : List Char) :
+    (∃ pos, tokenSplit inp = .error pos) ↔ ¬ ∃ tok rest, inp = tok ++ rest ∧ IsToken tok :=
+  tokenSplit_error_iff inp
+
+/-- the token alphabet is the one the Rust source spells out now -/
+theorem C07_positions_alphabet (c : Char) :
+    isNumChar c = (c.isDigit || Params.numberTokenExtra.toList.contains c || Params.numberTokenExtra2.toList.contains c) :=
+  isNumChar_source c
+
+/-- **`expr::amount` reads the maximal token or nothing**: it succeeds at `inp` iff the maximal token there is a
+well-formed, representable literal; the decimal in the tree is then exactly the decimal written by the WHOLE token. -/
+theorem C07_positions_amount (inp : List Char) (v : VExpr) (r : List Char) :
+    ExprSyntax.amount inp = .ok v r ↔ ∃ tok rest, inp = tok ++ rest ∧ IsToken tok ∧ NoNumHead rest ∧
+      (Spec.WellFormedLiteral tok = true ∧ Spec.Representable tok = true) ∧
+      v = .amt (litDec tok) (String.ofList ((ExprSyntax.skipSpaces rest).takeWhile ExprSyntax.isCommodityChar)) ∧
+      r = (ExprSyntax.skipSpaces rest).dropWhile ExprSyntax.isCommodityChar := by
+  rw [amount_uses_tokenSplit]
+  constructor
+  · rintro ⟨tok, rest, d, h1, h2, h3, h4⟩
+    obtain ⟨g1, g2, g3⟩ := tokenSplit_ok_shape h1
+    obtain ⟨hw, rfl⟩ := (scan_ok_iff tok d).1 h2
+    exact ⟨tok, rest, g1, g2, g3, hw, h3, h4⟩
+  · rintro ⟨tok, rest, rfl, g2, g3, hw, h3, h4⟩
+    exact ⟨tok, rest, litDec tok, tokenSplit_of_shape g2 g3, (scan_ok_iff tok _).2 ⟨hw, rfl⟩, h3, h4⟩
+
+/-- **no short read**: if the maximal token at a position is not a well-formed representable literal, both `amount`
+parsers fail there (stream reset to the start of the token); a shorter prefix of the token is never tried. -/
+theorem C07_positions_reject {tok rest : List Char} (ht : IsToken tok) (hr : NoNumHead rest)
+    (hbad : ¬ (Spec.WellFormedLiteral tok = true ∧ Spec.Representable tok = true)) :
+    ExprSyntax.amount (tok ++ rest) = .fail (tok ++ rest) ∧ Parse.amount (tok ++ rest) = .bt (tok ++ rest) := by
+  refine amount_rejects (tokenSplit_of_shape ht hr) ?_
+  intro d hd
+  exact hbad ((scan_ok_iff tok d).1 hd).1
+
+/-- **C07_positions (whole ledger)**: every numeric literal in the tree of an accepted ledger text — posting amounts,
+costs, lot prices, balance assertions (through all operators and parentheses) and `format` sub-directives — is the
+decimal written by a maximal token of the text, and that token is a well-formed, representable literal. -/
+theorem C07_positions (t : List Char) (es : List Entry) (h : Parse.parseEntries t = .ok es) :
+    ∀ e ∈ es, ∀ d ∈ numsEntry e, ∃ pre tok post, t = pre ++ (tok ++ post) ∧ IsToken tok ∧ NoNumHead post ∧
+      Spec.WellFormedLiteral tok = true ∧ Spec.Representable tok = true ∧ d = litDec tok := by
+  intro e he d hd
+  obtain ⟨pre, tok, post, h1, h2, h3, h4⟩ := C07_positions_ledger t es h e he d hd
+  obtain ⟨⟨hw, hrep⟩, rfl⟩ := (scan_ok_iff tok d).1 h4
+  exact ⟨pre, tok, post, h1, h2, h3, hw, hrep, rfl⟩
+
+/-- **C07_positions (price-db file)**: the rate of every record of an accepted price-db text -/
+theorem C07_positions_pricedb (t : List Char) (rs : List PriceDbFile.PriceRec)
+    (h : PriceDbFile.parsePriceDb t = .ok rs) :
+    ∀ x ∈ rs, ∃ pre tok post, t = pre ++ (tok ++ post) ∧ IsToken tok ∧ NoNumHead post ∧
+      Spec.WellFormedLiteral tok = true ∧ Spec.Representable tok = true ∧ x.rate = litDec tok := by
+  intro x hx
+  obtain ⟨pre, tok, post, h1, h2, h3, h4⟩ := C07_positions_priceDb t rs h x hx
+  obtain ⟨⟨hw, hrep⟩, hd⟩ := (scan_ok_iff tok x.rate).1 h4
+  exact ⟨pre, tok, post, h1, h2, h3, hw, hrep, hd⟩
+
+/-- non-vacuity: `12,50` followed by ` USD` is a maximal token that is not a well-formed literal, so `amount` fails
+there — it is not read as `12` -/
+example : ExprSyntax.amount ("12,50".toList ++ " USD".toList) = .fail ("12,50".toList ++ " USD".toList) :=
+  (C07_positions_reject ⟨_, ⟨by simp, by decide⟩, .inr rfl⟩ (by intro c r h; injection h with h1 _; subst h1; decide)
+    (by decide +kernel)).1
+
+/-- non-vacuity: `-1,234.50 USD` is read, as the whole token -/
+example : ∃ v r, ExprSyntax.amount "-1,234.50 USD".toList = .ok v r ∧
+    v = .amt (litDec "-1,234.50".toList) (String.ofList ((ExprSyntax.skipSpaces " USD".toList).takeWhile ExprSyntax.isCommodityChar)) :=
+  ⟨_, _, (C07_positions_amount _ _ _).2 ⟨"-1,234.50".toList, " USD".toList, by decide,
+    ⟨"1,234.50".toList, ⟨by simp, by decide⟩, .inl (by decide)⟩,
+    (by intro c r h; injection h with h1 _; subst h1; decide), by decide +kernel, rfl, rfl⟩, rfl⟩
 
 end Okane.C07
